@@ -131,11 +131,12 @@ Section LocateGroup.
   Variable s : str.
   Variable t : list loc.
   Hypothesis HU : NoDup (map (fun x => gid (lst x)) t).
-  Hypothesis HF : forall st', searched st' t -> find_all (kw_match fl (stmt_words st')) s = hits st' t.
+  Variable PS : stmt -> Prop.
+  Hypothesis HF : forall st', PS st' -> searched st' t -> find_all (kw_match fl (stmt_words st')) s = hits st' t.
 
-  Lemma locate_single : forall st', is_join st' = false -> locate_group fl [st'] s = Ok (pick t (gid st')).
+  Lemma locate_single : forall st', PS st' -> is_join st' = false -> locate_group fl [st'] s = Ok (pick t (gid st')).
   Proof.
-    intros st' NJ. cbn [locate_group]. rewrite HF by (intros y _ J; rewrite NJ in J; discriminate J).
+    intros st' PS0 NJ. cbn [locate_group]. rewrite HF by (try exact PS0; intros y _ J; rewrite NJ in J; discriminate J).
     unfold hits. rewrite (filter_ext_in' _ (fun x => Nat.eqb (gid (lst x)) (gid st')) t)
       by (intros y _; symmetry; apply gid_nonjoin; exact NJ).
     rewrite (filter_unique (fun x => gid (lst x)) (gid st') t HU). unfold pick.
@@ -169,6 +170,7 @@ Section LocateGroup.
     - pose proof (find_none _ _ F y Iy) as N. cbn beta in N. rewrite gid_join in N. rewrite N in Jy. discriminate Jy.
   Qed.
 
+  Hypothesis PJ : forall st', is_join st' = true -> PS st'.
   Lemma locate_joins :
     locate_group fl [STRICT_LEFT_JOIN; LEFT_OUTER_JOIN; LEFT_JOIN; INNER_JOIN; JOIN] s = Ok (pick t 0).
   Proof.
@@ -178,9 +180,9 @@ Section LocateGroup.
       { unfold pick in P. destruct (find_some _ _ P) as [_ G]. cbn [lst snd] in G. rewrite gid_join in G. exact G. }
       cbn [lst snd] in SU, HJ.
       destruct stx; try discriminate J; cbn [locate_group];
-        repeat (rewrite HF by (apply SU; cbn [stmt_id]; lia); rewrite HJ by reflexivity; cbn [stmt_eqb stmt_id Nat.eqb hit_of fst snd map]);
+        repeat (rewrite HF by (first [apply PJ; reflexivity | apply SU; cbn [stmt_id]; lia]); rewrite HJ by reflexivity; cbn [stmt_eqb stmt_id Nat.eqb hit_of fst snd map]);
         reflexivity.
-    - cbn [locate_group]. repeat (rewrite HF by (apply SU; exact I); rewrite HJ by reflexivity). reflexivity.
+    - cbn [locate_group]. repeat (rewrite HF by (first [apply PJ; reflexivity | apply SU; exact I]); rewrite HJ by reflexivity). reflexivity.
   Qed.
 End LocateGroup.
 
@@ -203,18 +205,21 @@ Theorem locate_of_hits : forall fl with_from s (t : list loc),
   StronglySorted lt_loc t ->
   NoDup (map (fun x => gid (lst x)) t) ->
   (with_from = false -> forall x, In x t -> lst x <> FROM) ->
-  (forall st', searched st' t -> find_all (kw_match fl (stmt_words st')) s = hits st' t) ->
+  (forall st', (with_from = false -> st' <> FROM) -> searched st' t ->
+     find_all (kw_match fl (stmt_words st')) s = hits st' t) ->
   locate_statements fl with_from s = Ok t.
 Proof.
   intros fl wf s t ST HU HW HF. unfold locate_statements.
-  pose proof (locate_joins fl s t HU HF) as LJ. pose proof (locate_single fl s t HU HF) as LS.
+  assert (LJ : locate_group fl [STRICT_LEFT_JOIN; LEFT_OUTER_JOIN; LEFT_JOIN; INNER_JOIN; JOIN] s = Ok (pick t 0)).
+  { apply (locate_joins fl s t HU _ HF). intros st' J _ E. subst st'. discriminate J. }
+  pose proof (locate_single fl s t HU _ HF) as LS.
   destruct wf.
   - rewrite (locate_groups_picks fl s t _ [0; 1; 2; 3; 4; 5; 6; 7; 8]).
-    2:{ unfold statement_groups. cbn [app]. repeat (constructor; [first [exact LJ | apply LS; reflexivity]|]). constructor. }
+    2:{ unfold statement_groups. cbn [app]. repeat (constructor; [first [exact LJ | apply LS; [intros; discriminate | reflexivity]]|]). constructor. }
     rewrite (sort_picks t ST HU) by (repeat constructor; cbn [In]; intuition discriminate).
     f_equal. apply filter_all. intros [[a b] st] _. destruct st; reflexivity.
   - rewrite (locate_groups_picks fl s t _ [0; 1; 2; 3; 4; 5; 6; 7]).
-    2:{ unfold statement_groups. cbn [app]. repeat (constructor; [first [exact LJ | apply LS; reflexivity]|]). constructor. }
+    2:{ unfold statement_groups. cbn [app]. repeat (constructor; [first [exact LJ | apply LS; [intros; discriminate | reflexivity]]|]). constructor. }
     rewrite (sort_picks t ST HU) by (repeat constructor; cbn [In]; intuition discriminate).
     f_equal. apply filter_all. intros [[a b] st] Ix. pose proof (HW eq_refl _ Ix) as NF. cbn [lst snd] in NF.
     destruct st; try reflexivity. contradiction NF. reflexivity.
